@@ -104,7 +104,7 @@ def run(spec):
                     for z, (i, pins) in where:
                         for p in pins:
                             ref = rec.rows[i][p]           # [pin index, coolant, clad od, mw, id, fuel od, cl]
-                            if abs(row[1] - z) <= 1e-9 and int(row[2]) == p and np.array_equal(row[3:], ref[1:]):
+                            if len(row) == 9 and abs(row[1] - z) <= 1e-9 and int(row[2]) == p and np.array_equal(row[3:], ref[1:]):
                                 okrow = True
                     o.check(okrow, "peak_pin_profile_" + key,
                             "asm %d: stored profile (z=%.9f, pin %d) is not the profile of a pin/height attaining the peak %s"
@@ -122,6 +122,7 @@ def run(spec):
         if txt:
             check_tables(o, txt, r, recs, 1.0 / units.LENGTH[u["length"]], lambda T: units.t_from_k(T, u["temperature"]))
         o.classes.update({"n_asm": len(r.assemblies), "pin_model": any("pin" in a._peak for a in r.assemblies),
+                          "pins_off_above": min(spec.get("_pins_off_above", 0), 2),
                           "max_regions": max(len(a.region) for a in r.assemblies),
                           "peak_pos": "top" if any(abs(z - L) <= 1e-9 for z, _ in recs[0].cool[1]) else "below_top"})
         o.nontrivial = nontrivial
@@ -236,6 +237,21 @@ def cases(draw, q):
             gen.attach_pin_model(spec, name, pm, mats, fuel=False)
     spec["_units"] = {"length": draw(st.sampled_from(["m", "m", "cm", "mm", "in", "ft"])),
                       "temperature": draw(st.sampled_from(["kelvin", "kelvin", "celsius", "fahrenheit"]))}
+    # shape class "pins off above": pin power only in the lower power cells while duct / coolant heating goes on (and
+    # is made substantial), so that the hottest clad and fuel are found where no pin generates power
+    spec["_pins_off_above"] = 0
+    if draw(st.integers(0, 2)) == 0:
+        for ap in spec["power"]["files"][0].values():
+            ncell = len(ap["zb_frac"]) - 1
+            if ncell >= 2 and "pins" in ap and ("cool" in ap or "duct" in ap):
+                j = draw(st.integers(1, ncell - 1))
+                for c in range(j, ncell):
+                    ap["pins"]["base"][c] = [0.0] * len(ap["pins"]["base"][c])
+                f = draw(st.sampled_from([5.0, 20.0, 60.0]))
+                for key in ("cool", "duct"):
+                    if key in ap:
+                        ap[key]["base"] = [[gen.r6(x * f) for x in row] for row in ap[key]["base"]]
+                spec["_pins_off_above"] += 1
     return spec
 
 
